@@ -313,6 +313,15 @@ def generate(repo):
         defn(nm + "_text", "str", coq_str(const_str(need(cvars, nm, "SchedulerScriptAdapter"), nm)))
     w("")
 
+    # ---- the running interpreter: the code points the unicode pattern \s matches ----
+    # (SlurmScriptAdapter.get_header: re.sub(r"\s", "_", step.name); enumerated, not assumed)
+    import re as _re
+    pts = [ord(ch) for ch in _re.findall(r"\s", "".join(map(chr, range(0x110000))))]
+    if not pts or pts != sorted(set(pts)) or 32 not in pts or 9 not in pts:
+        fail("unexpected set of \\s code points: %r" % (pts[:40],))
+    defn("py_space_points", "list N", coq_list(["%d%%N" % c for c in pts]))
+    w("")
+
     # ---- study.py: StudyStep.run defaults ----------------------------------
     mod = parse(repo, STUDY)
     cls = find_class(mod, "StudyStep")
